@@ -288,6 +288,17 @@ def run(ctx):
     ctx.note_case(('suite', recipe['test']))
   ctx.extra['suite_traces'] = {'pytest_summary': summary, 'calls_recorded': len(evs), 'tests_validated': len(spairs),
                                'events_validated': sum(len(t['events']) for _, t in spairs)}
+  lp = suite.judge_life(ctx, evs, 300 if ctx.quick else 0)
+
+  def threshold_not_stored(t):
+    e = next(e for e in t['events'] if e['act'] == 'set_threshold' and e['exc'] == '' and e['hasarg'])
+    e['after'] = dict(e['after'], thr=e['before']['thr'], hasthr=e['before']['hasthr'])
+  lgood = next((t for r, t in lp if any(e['act'] == 'set_threshold' and e['exc'] == '' and e['hasarg']
+                                        and e['before']['thr'] != e['arg'] for e in t['events'])), None)
+  if lgood is not None:
+    core.selftest_binding(ctx, *suite.LIFE_SPEC, lgood, threshold_not_stored, 'C04.suite_set_threshold_stores_value',
+                          'suite_set_threshold_ignored')
+
   def flip_suite(t):
     t['events'][0]['out'] = [-v for v in t['events'][0]['out']]
   sp = next(t for r, t in spairs if t['events'][0]['ev'] == 'CallPredictPairs')
